@@ -44,6 +44,7 @@ type CfgCore struct {
 	SM                             []map[string]int          // maps inside a slice
 	MM                             map[string][]string       // slices inside a map
 	MA                             map[string]map[string]int // maps inside a map; a source may place one inner map under several keys
+	Pairs                          [][2]*int                 // arrays (holding pointers) inside a slice
 	Nest                           Nested
 	PN                             *Nested
 	Emb
@@ -95,6 +96,7 @@ type Part struct {
 	SM        []map[string]int    `json:"sm,omitempty"`
 	MM        map[string][]string `json:"mm,omitempty"`
 	MA        map[string]int      `json:"ma,omitempty"` // key -> inner map number; equal numbers are one and the same map object
+	Pairs     [][2]int            `json:"pairs,omitempty"`
 	NestS     *string             `json:"nest_s,omitempty"`
 	NestN     *int                `json:"nest_n,omitempty"`
 	NestX     *int                `json:"nest_x,omitempty"`
@@ -146,6 +148,15 @@ func buildMA(spec map[string]int) map[string]map[string]int {
 			inner[n] = map[string]int{"v": n}
 		}
 		out[k] = inner[n]
+	}
+	return out
+}
+
+func buildPairs(spec [][2]int) [][2]*int {
+	out := make([][2]*int, len(spec))
+	for i, pr := range spec {
+		a, b := pr[0], pr[1]
+		out[i] = [2]*int{&a, &b}
 	}
 	return out
 }
@@ -236,6 +247,9 @@ func fillValue(e reflect.Value, p *Part, owner int) {
 	}
 	if p.MA != nil {
 		fld("MA").Set(reflect.ValueOf(buildMA(p.MA)))
+	}
+	if p.Pairs != nil {
+		fld("Pairs").Set(reflect.ValueOf(buildPairs(p.Pairs)))
 	}
 	if p.NestS != nil || p.NestN != nil || p.NestX != nil {
 		f := fld("Nest")
@@ -343,6 +357,9 @@ func defaultsFrom(p *Part) *CfgCore {
 	}
 	if p.MA != nil {
 		c.MA = buildMA(p.MA)
+	}
+	if p.Pairs != nil {
+		c.Pairs = buildPairs(p.Pairs)
 	}
 	if p.NestS != nil {
 		c.Nest.S = *p.NestS
